@@ -457,6 +457,14 @@ class Engine:
         if e.id in ("range", "len", "bytes", "bytearray", "cast", "int", "bool", "super", "isinstance", "max", "min", "abs", "str", "float", "round", "next", "hasattr", "all", "any", "list", "hash", "enumerate", "zip", "tuple", "dict", "sorted", "reversed", "getattr"):
             return [(st, ("builtin", e.id))]
         if e.id in s.exc_parents or e.id in ("ValueError", "Exception"): return [(st, ("excclass", e.id))]
+        # a module-level name whose defining statement could not be evaluated when the module was loaded (e.g. a library object a sidecar models): evaluate it now
+        for node in s.trees[ctx.module].body:
+            tgt = node.targets[0] if isinstance(node, ast.Assign) and len(node.targets) == 1 else node.target if isinstance(node, ast.AnnAssign) and node.value is not None else None
+            if isinstance(tgt, ast.Name) and tgt.id == e.id:
+                tctx = Ctx(s, ctx.module, None, f"{ctx.module}.<toplevel>")
+                r = s.eval(node.value, State(), tctx)
+                if len(r) == 1 and not isinstance(r[0][1], Raised):
+                    s.consts[f"{ctx.module}.{e.id}"] = r[0][1]; return [(st, r[0][1])]
         raise Unsupported(f"name {e.id} line {e.lineno}")
 
     def mangle(s, attr, ctx):
